@@ -72,7 +72,8 @@ def run_case(ctx, Model, case):
         case['history'] = [None, None, None, None, 'copy', 'deepcopy', 'reindex', 'add-variable'][h64(['hist', case]) % 8]
     if 'caller_errstate' not in case:
         from .common import h64
-        case['caller_errstate'] = [None, None, None, None, 'ignore', 'raise', 'warn'][h64(['es', case]) % 7]
+        case['caller_errstate'] = [None, None, None, None, 'ignore', 'raise', 'warn', {'over': 'ignore', 'invalid': 'raise', 'divide': 'warn'},
+                                   {'over': 'raise', 'invalid': 'ignore', 'divide': 'ignore'}, {'over': 'warn', 'invalid': 'ignore', 'divide': 'raise'}][h64(['es', case]) % 10]
     if 'hook_binding' not in case:
         from .common import h64
         case['hook_binding'] = 'instance' if case['model_class'] == 'plain' and h64(['hb', case]) % 4 == 0 else 'class'
